@@ -96,11 +96,11 @@ func init() {
 			"fork replays call the real MsgServiceRouter handler on a cache context (no ante); a sample of replays goes through real transactions with the full ante chain",
 			"control: a signature by a registered validator key over a never-issued checkpoint must jail that validator (else INCONCLUSIVE, not a violation of the statement)",
 		},
-		Cases:       cases,
-		Run:         run,
+		Cases: cases,
+		Run:   run,
 		MinCounters: []string{"checkpoints_archived:built", "checkpoints_archived:re-estimated", "confirmations_archived", "replay_fork", "replay_realtx", "control_bad_sig_jailed", "prune_events", "prune_legit_jailings",
 			"prune_redelivered_evidence_before_and_after"},
-		Workers:     16,
-		TimeoutS:    3600, // generous: the watchdog only guards against hangs (a 900-block history is ~25 s CPU)
+		Workers:  16,
+		TimeoutS: 3600, // generous: the watchdog only guards against hangs (a 900-block history is ~25 s CPU)
 	})
 }
